@@ -237,7 +237,6 @@ def run(ctx):
         disc_leg(ctx, parent, corr_broken)
         xdev_leg(ctx, parent, corr_broken)
         # ---- c19a (audit 7, C5/C4): line-level replays on the real FileLogger, probes of fixes F46/F47 ----
-        import c19_lines
         c19_lines.lines_leg(ctx, parent, corr_broken)
     # known finding replay on the REAL binary: the tool as shipped (router behind go-nsq's handlerLoop)
     if parent and not ctx.replay_in:
